@@ -215,12 +215,14 @@ Qed.
 Lemma conclude_sound store rk k e r :
   agrees store k e -> conclude rk k e = Some r -> r = read_res sz rk k (mem k store).
 Proof.
-  unfold read_res, found_res, missing_res.
-  destruct rk, e as [b|n]; cbn; intros Ha Hc;
-    try discriminate; try (destruct b; try discriminate);
-    try (destruct (0 <=? n)%Z; try discriminate);
-    injection Hc as <-; cbn in Ha;
-    try (destruct Ha as [-> ->]); try rewrite <- Ha; reflexivity.
+  unfold read_res, found_res, missing_res. intros Ha Hc.
+  destruct e as [b|n]; cbn [agrees] in Ha.
+  - subst b. destruct rk; cbn [conclude ehas] in Hc; destruct (mem k store);
+      try discriminate Hc; now injection Hc as <-.
+  - destruct Ha as [Hm Hn]. subst n. rewrite Hm.
+    destruct rk; cbn [conclude ehas] in Hc; try discriminate Hc.
+    + now injection Hc as <-.
+    + destruct (0 <=? sz k)%Z; [now injection Hc as <- | discriminate Hc].
 Qed.
 
 Lemma read_upd_agrees store rk k : agrees store k (read_upd sz rk k (mem k store)).
